@@ -323,7 +323,8 @@ func (e *Engine) Run(t *core.Tape, cfg *core.Config, st *core.Stats) (viol *core
 	// numeric scenario: numerals separated by blanks and line ends, read with "*n" (mixed with other formats)
 	if t.Choose(4) == 0 {
 		var sb strings.Builder
-		var nums []string
+		var nums, puncts []string
+		var ends []int
 		n := 1 + t.Choose(12)
 		for i := 0; i < n; i++ {
 			var tok string
@@ -339,7 +340,17 @@ func (e *Engine) Run(t *core.Tape, cfg *core.Config, st *core.Stats) (viol *core
 			}
 			nums = append(nums, tok)
 			sb.WriteString(tok)
-			sb.WriteString([]string{" ", "\n", "  ", "\n\n", "\t", " \n "}[rng.Next()%6])
+			ends = append(ends, sb.Len())
+			// a numeral ends at a blank or line end, or directly at a byte that cannot continue it
+			punct := ""
+			if rng.Next()%3 == 0 {
+				punct = []string{",", ";", ":", ")", "|"}[rng.Next()%5]
+				sb.WriteString(punct)
+			}
+			puncts = append(puncts, punct)
+			if punct == "" || rng.Next()%2 == 0 {
+				sb.WriteString([]string{" ", "\n", "  ", "\n\n", "\t", " \n "}[rng.Next()%6])
+			}
 		}
 		np := filepath.Join(dir, "nums.txt")
 		content := strings.NewReplacer("\\n", "\n", "\\t", "\t").Replace(sb.String())
@@ -362,6 +373,19 @@ func (e *Engine) Run(t *core.Tape, cfg *core.Config, st *core.Stats) (viol *core
 			}
 			if v := do(fmt.Sprintf("N:read(\"*n\")  -- numeral %d of %d", i+1, n), "local v = N:read(\"*n\"); if v and v ~= math.floor(v) then return \"F\" .. tostring(v) end; return enc(v)", expect{vals: want}); v != nil {
 				return v
+			}
+			if i < n && rng.Next()%3 == 0 {
+				// the cursor stands right behind the numeral
+				if v := do("N:seek(\"cur\", 0)", "return enc(N:seek(\"cur\", 0))", expect{vals: []string{fmt.Sprintf("D%d", ends[i])}}); v != nil {
+					return v
+				}
+				st.Probe("numeric_cursor_checked")
+			}
+			if i < n && puncts[i] != "" {
+				if v := do("N:read(1)  -- the byte that ended the numeral", "return enc(N:read(1))", expect{vals: []string{"S" + puncts[i]}}); v != nil {
+					return v
+				}
+				st.Probe("numeral_ended_by_punctuation")
 			}
 		}
 		if v := do("N:close()", "return enc(N:close())", expect{vals: []string{"T"}}); v != nil {
